@@ -44,6 +44,7 @@ def shards(tier):
             out.append(("event", ec[1], sch, tier, ec[0], ec[2]))
     out.append(("illegal",))
     out.append(("illegal-optimised",))
+    out.append(("intlike",))
     return out
 
 
@@ -281,6 +282,61 @@ def run_shard(shard):
                           f"{label} was accepted" + (f" and encoded as {fr}" if fr is not None else ""),
                           {"t": "illegal", "idx": i, "label": label})
         sample(res, {"illegal_probes": len(illegal_probes()), "examples": [l for l, _ in illegal_probes()[:5]]})
+    elif k == "intlike":
+        # integer parameters given as IntEnum members - the library's own selectors (which its sequences pass to DTR0 / DTR2) and
+        # a user IntEnum: same frame, same class, same text as with the plain integer
+        import enum
+        from dali.gear import colour
+
+        class Labelled(int):
+            def __repr__(self):
+                return f"<Labelled {int(self)}>"
+            __str__ = __repr__
+        enum_cache = {}
+
+        def as_enum(v):
+            if v not in enum_cache:
+                enum_cache[v] = enum.IntEnum(f"E{v}", {"member": v}).member
+            return enum_cache[v]
+        libenum = {int(m): m for m in colour.QueryColourValueDTR}
+        libenum2 = {int(m): m for m in colour.StoreColourTemperatureTcLimitDTR2}
+        # (bool and int subclasses that override __str__ / __repr__ print differently by their own choice: not compared)
+        wrappers = [("IntEnum", as_enum), ("library-enum", lambda v: libenum.get(v, libenum2.get(v, as_enum(v))))]
+        n = 0
+        for tab, r in S.all_rows():
+            descs = list(S.row_descriptors(tab, r, "quick"))
+            picks = [d for d in descs if any(isinstance(a, int) for a in d[2])]
+            picks = picks[:3] + picks[len(picks) // 2:len(picks) // 2 + 2] + picks[-3:]
+            for desc in picks:
+                for wname, wrap in wrappers:
+                    args = tuple(wrap(a) if isinstance(a, int) and not isinstance(a, bool) else a for a in desc[2])
+                    if all(a is b for a, b in zip(args, desc[2])):
+                        continue
+                    case = {"t": "intlike", "desc": [desc[0], desc[1], [list(a) if isinstance(a, tuple) else int(a) if isinstance(a, int) else a for a in desc[2]]], "wrapper": wname}
+                    n += 1
+                    try:
+                        plain = S.construct(desc)
+                        c = S.construct((desc[0], desc[1], args))
+                        d = from_frame(c.frame, devicetype=c.devicetype)
+                    except Exception as e:
+                        add_violation(res, f"C02:intlike:raises:{desc[0]}.{desc[1]}", f"{desc} with {wname} parameters: {e!r}", case)
+                        continue
+                    if c.frame != plain.frame or type(d) is not type(c) or str(c) != str(d) or str(c) != str(plain) or not (d.frame == c.frame):
+                        add_violation(res, f"C02:intlike:{desc[0]}.{desc[1]}", f"{desc[1]} built with {wname} parameters {args}: text {str(c)!r}, decoded text {str(d)!r}, "
+                                      f"plain-int text {str(plain)!r}, frames {c.frame} / {plain.frame}", case)
+                    res["distinct"].add(("intlike", wname, tab))
+        for a in (R.ALL_GEAR_ADDRS[0], R.ALL_GEAR_ADDRS[-1]):
+            for p in (0, 1, 254, 255):
+                for wname, wrap in wrappers:
+                    from dali.gear.general import DAPC
+                    c, plain = DAPC(R.lib_mkaddr(a, "gear"), wrap(p)), DAPC(R.lib_mkaddr(a, "gear"), p)
+                    d = from_frame(c.frame)
+                    n += 1
+                    if c.frame != plain.frame or str(c) != str(d) or str(c) != str(plain) or type(d) is not DAPC:
+                        add_violation(res, "C02:intlike:gear.general.DAPC", f"DAPC({a}, {wname} {p}): text {str(c)!r}, decoded {str(d)!r}, plain {str(plain)!r}",
+                                      {"t": "intlike", "desc": ["gear.general", "DAPC", [list(a), p]], "wrapper": wname})
+        res["evaluations"] += n
+        sample(res, {"int_like_parameters": n, "wrappers": [w for w, _ in wrappers]})
     elif k == "illegal-optimised":
         # the same illegal alphabet in an interpreter started with -O (assert statements compiled out): rejection
         # "with an exception" must not hinge on an interpreter option
@@ -330,6 +386,8 @@ def replay(case):
         event_roundtrip(res, case["mod"], case["name"], case["itype"], case["scheme"], case["fields"], case["data"], case["form"], from_frame)
     elif t == "dapc":
         return run_shard(("dapc",))["violations"]
+    elif t == "intlike":
+        return [v for v in run_shard(("intlike",))["violations"] if v["case"]["desc"][:2] == case["desc"][:2]]
     elif t == "illegal-optimised":
         vs = run_shard(("illegal-optimised",))["violations"]
         return [v for v in vs if v["case"]["label"] == case["label"]]
